@@ -1,5 +1,5 @@
 # Per-property manifest wording (level, trusted base, technique).
-HOOK_COMMITS = []
+HOOK_COMMITS = ['f267b7d']
 NOT_APPLICABLE = {}
 ENGINES = [
     {'name': 'seqx', 'path': 'engine/seqx.hpp', 'serves_properties': ['C12', 'C13', 'C14', 'C15', 'C16', 'C18', 'C19'],
@@ -12,6 +12,12 @@ ENGINES = [
      'kind_free_text': 'preemption-bounded controlled scheduler over compiler-inserted load/store hooks with conflict (race) monitor'},
 ]
 TEXT = {
+    'C14': {
+        'level': 'Explicit-state breadth-first search (depth 5 quick / 6 thorough, canonical-state dedup) over ~45-operation alphabets on two registers each of Array<int>, Array<Tracked> (owning element that counts constructions/destructions), String<char|char16_t>, StringStream<char|char32_t>, including self-aliasing operations (a+=a, s.Write(s.First()..), stream<<stream); std::vector / std::basic_string reference models are compared after every transition through the public read API (contents, length, NUL terminator, Size<=Capacity, First/Last/End, iteration, all comparison operators, StringView over the same contents). Runs under ASan with and without the exact-fit growth hook, plus a fast SSE2 build. Memory::Copy and SetToZero: every length 0..4096 (quick 0..300) x 32 source x 32 destination misalignments with guard bytes against memcpy/memset in scalar, SSE2 and AVX2 builds.',
+        'design_ref': 'DESIGN.md §5 C14',
+        'note': 'Histories up to the stated depth over the stated alphabets; capacities compared only where the API documents them; Tracked tolerates bitwise relocation.',
+        'technique': 'explicit-state BFS over operation histories on the implementation with reference-model comparison; exhaustive length/alignment enumeration for the copy primitives',
+    },
     'C19': {
         'level': 'Explicit-state breadth-first search on the real BigInt: for BigInt<uint8,16> over EVERY reachable internal state (words+index) to the fixed point with the complete alphabet (all 256 operands of = += -= *= /= |= &=, all shifts, wide set/add/sub/or/and, copy, move; 65536 states, ~170 M transitions); for <uint8,24|32>, <uint16,64>, <uint32,128>, <uint64,128|256|2048> to depth 4-5 over boundary operands and shifts with canonical-state dedup; after every transition the value, remainder, bit scans, all comparison operators, zero predicates and narrowing conversions are compared with a schoolbook reference. DoubleSize<uint8> divide/multiply exhaustively (8.4 M), 16/32/64-bit helpers on boundary lattices and on every divisor in [2^63, 2^63+4096) and the top 4096.',
         'design_ref': 'DESIGN.md §5 C19',
